@@ -36,7 +36,7 @@ func TestVerifC13_fourq(t *testing.T) {
 	defer r.Finish()
 	r.Rule("FourQ: points PT = {O, +-kG, [(N+-1)/2]G, +-[s]G} from the reference's coordinates plus NS = 3 curve points outside the prime-order subgroup (smallest liftable y); " +
 		"Add on (PT+NS) x (PT+NS); ScalarMult(k, Q) = [392k]Q on SC x (PT+NS) with SC = curvealpha.Scalars(N, 256) as 32-byte little-endian; ScalarBaseMult on SC; " +
-		"internal pointR1.ScalarMult (no cofactor) on SC x PT, ClearCofactor on PT+NS, double/mixAdd on PT; results compared as affine GF(p^2) coordinates and encodings; distinct = distinct (operation, operand names)")
+		"internal pointR1.ScalarMult (no cofactor) on SC x PT, ClearCofactor on PT+NS, double/mixAdd on PT; results compared as affine GF(p^2) coordinates and encodings; before that, every predicate (Point.IsIdentity/IsOnCurve, pointR1.IsIdentity/IsOnCurve/isEqual against the expected point, SetIdentity, a computed identity T+(-T), the same point by another route, a different point) is queried directly on byte-identical copies of each freshly computed result, including chains ((P+Q)-Q)-P; distinct = distinct (operation, operand names)")
 	ref := ecurve.FourQ()
 	N := ref.N
 	prm := Params()
@@ -77,7 +77,70 @@ func TestVerifC13_fourq(t *testing.T) {
 		y0, y1 := y.toBigInt()
 		return x0.Cmp(want.X.A) == 0 && x1.Cmp(want.X.B) == 0 && y0.Cmp(want.Y.A) == 0 && y1.Cmp(want.Y.B) == 0
 	}
+	toR1 := func(P ecurve.Point) *pointR1 {
+		var R pointR1
+		c13Pt(P).toR1(&R)
+		return &R
+	}
+	// predsR1 queries every predicate of the package DIRECTLY on byte-identical
+	// copies of a freshly computed value (one copy per query, because the
+	// predicates reduce their receiver in place), before anything normalises it.
+	Tp := ref.BaseMult(big.NewInt(0x51ed27))
+	predsR1 := func(op, class, id string, fresh func() *pointR1, want ecurve.Point, payload interface{}) {
+		isID := ref.IsIdentity(want)
+		kind := "non-identity"
+		if isID {
+			kind = "identity"
+			r.Count("identity_results_queried", 1)
+		} else {
+			r.Count("non_identity_results_queried", 1)
+		}
+		fail := func(pred string, got, exp bool) {
+			if got != exp {
+				bad(op, "predicate:"+pred+"|fresh-result|"+kind+"|"+class, id,
+					fmt.Sprintf("%s: %s = %v on the freshly computed result (raw coordinates %v), the reference says %v (result should be %v)", id, pred, got, *fresh(), exp, want), payload)
+			}
+		}
+		fail("IsIdentity", fresh().IsIdentity(), isID)
+		fail("IsOnCurve", fresh().IsOnCurve(), true)
+		fail("isEqual(expected)", fresh().isEqual(toR1(want)), true)
+		fail("expected.isEqual(result)", toR1(want).isEqual(fresh()), true)
+		var I pointR1
+		I.SetIdentity()
+		fail("isEqual(SetIdentity)", fresh().isEqual(&I), isID)
+		// an identity produced by arithmetic: T + (-T), left in projective form
+		CI := toR1(Tp)
+		var nT pointR2
+		nT.FromR1(toR1(ref.Neg(Tp)))
+		CI.add(&nT)
+		fail("isEqual(T+(-T))", fresh().isEqual(CI), isID)
+		fail("(T+(-T)).isEqual(result)", CI.isEqual(fresh()), isID)
+		// the same point reached by a different route: (want - T) + T
+		alt := toR1(ref.Sub(want, Tp))
+		var t2 pointR2
+		t2.FromR1(toR1(Tp))
+		alt.add(&t2)
+		fail("isEqual(other-route)", fresh().isEqual(alt), true)
+		fail("isEqual(different-point)", fresh().isEqual(toR1(ref.Add(want, ref.G))), false)
+		fail("isEqual(-expected)", fresh().isEqual(toR1(ref.Neg(want))), ref.Equal(want, ref.Neg(want)))
+	}
 	check := func(op, class, id string, got *Point, want ecurve.Point, payload interface{}) {
+		{
+			isID := ref.IsIdentity(want)
+			kind := "non-identity"
+			if isID {
+				kind = "identity"
+			}
+			f1, f2 := *got, *got
+			if v := f1.IsIdentity(); v != isID {
+				bad(op, "predicate:IsIdentity|fresh-result|"+kind+"|"+class, id,
+					fmt.Sprintf("%s: Point.IsIdentity() = %v on the freshly computed result (raw coordinates %v), the reference says %v", id, v, *got, isID), payload)
+			}
+			if !f2.IsOnCurve() {
+				bad(op, "predicate:IsOnCurve|fresh-result|"+kind+"|"+class, id, fmt.Sprintf("%s: Point.IsOnCurve() = false on the freshly computed result %v", id, *got), payload)
+			}
+			predsR1(op, class, id, func() *pointR1 { f := *got; var R pointR1; f.toR1(&R); return &R }, want, payload)
+		}
 		g := *got
 		if !same(&g.X, &g.Y, want) {
 			bad(op, "wrong-result|"+class, id, fmt.Sprintf("%s: got %v want %v", id, g, want), payload)
@@ -93,6 +156,7 @@ func TestVerifC13_fourq(t *testing.T) {
 		}
 	}
 	checkR1 := func(op, class, id string, got *pointR1, want ecurve.Point, payload interface{}) {
+		predsR1(op, class, id, func() *pointR1 { f := *got; return &f }, want, payload)
 		g := *got
 		if g.Z.isZero() || !g.IsOnCurve() {
 			bad(op, "invalid-projective|"+class, id, id+": z = 0 or extended coordinates inconsistent", payload)
@@ -110,12 +174,6 @@ func TestVerifC13_fourq(t *testing.T) {
 		}
 		return true
 	}
-	toR1 := func(P ecurve.Point) *pointR1 {
-		var R pointR1
-		c13Pt(P).toR1(&R)
-		return &R
-	}
-
 	var G, O Point
 	G.SetGenerator()
 	O.SetIdentity()
@@ -146,6 +204,12 @@ func TestVerifC13_fourq(t *testing.T) {
 			var out Point
 			if try("Add", id, func() { out.Add(c13Pt(a.p), c13Pt(b.p)) }) {
 				check("Add", "P="+a.name+"|Q="+b.name, id, &out, want, nil)
+			}
+			// chain on computed values: ((P+Q)+(-Q))+(-P) is the identity, reached through non-normalised operands
+			var c1, c2 Point
+			if try("Add", id+"/chain", func() { c1.Add(&out, c13Pt(ref.Neg(b.p))); c2.Add(&c1, c13Pt(ref.Neg(a.p))) }) {
+				check("Add", "chain|P="+a.name+"|Q="+b.name, id+"/chain1", &c1, a.p, nil)
+				check("Add", "chain-to-identity|P="+a.name+"|Q="+b.name, id+"/chain2", &c2, ref.Identity(), nil)
 			}
 			// internal: projective accumulator + affine table entry
 			R := toR1(a.p)
@@ -245,4 +309,6 @@ func TestVerifC13_fourq(t *testing.T) {
 	r.RequireCounter("even_scalar", 50)
 	r.RequireCounter("result_identity", 10)
 	r.RequireCounter("mult_outside_subgroup", 50)
+	r.RequireCounter("identity_results_queried", 300)
+	r.RequireCounter("non_identity_results_queried", 1000)
 }
